@@ -549,6 +549,12 @@ def r18_6(prog: Program, chk: Check) -> None:
     chk.analysed["config_model"] = {"lookups": total, "thorough_domain": thorough}
 
 
+def r18_7(prog: Program, chk: Check) -> None:
+    from .c10 import copies_share_no_state
+
+    copies_share_no_state(prog, chk, "R18.7")  # a per-module view made with replace() must not share a memo with the other views
+
+
 def run(prog: Program, chk: Check) -> None:
     guard(chk, r18_1, prog, chk)
     guard(chk, r18_2, prog, chk)
@@ -556,3 +562,4 @@ def run(prog: Program, chk: Check) -> None:
     guard(chk, r18_4, prog, chk)
     guard(chk, r18_5, prog, chk)
     guard(chk, r18_6, prog, chk)
+    guard(chk, r18_7, prog, chk)
